@@ -122,6 +122,12 @@ def generate(prop, rng, seed, index, tier):
                 deleted.add(d)
                 t += rng.choice(GRID)
                 ops.append({'t': t, 'op': 'delete', 'name': d})
+        if deleted and rng.random() < 0.3:
+            # ... and come back (rotation, unlink-and-rewrite): a path that was emitted is not emitted again
+            back = rng.choice(sorted(deleted))
+            deleted.discard(back)
+            t += rng.choice(GRID + [1, 2])
+            ops.append({'t': t, 'op': 'create', 'name': back})
     if not any(o['op'] == 'start' for o in ops):
         ops.append({'t': t, 'op': 'start'})
     sink = {'kind': rng.choice(['sync', 'native', 'tornado'])}
